@@ -87,6 +87,8 @@ structure Folder where
   files : List File
   /-- number of deletion events so far (orders `deleted_files`) -/
   delCtr : Nat := 0
+  /-- place of this folder in the file system's `deleted_folders` (deletion order); meaningful only while `deleted` -/
+  delSeq : Nat := 0
 deriving DecidableEq, Repr
 
 structure Node where
@@ -106,6 +108,8 @@ structure Node where
   it writes at completion — `revealed_to_red` — is not health; the countdown is modelled because it ticks in the same block
   of `apply_timestep` as the whole-node scan and must not disturb it. -/
   redCd : Int := 0
+  /-- number of folder deletions so far (orders `deleted_folders`) -/
+  fdelCtr : Nat := 0
 deriving DecidableEq, Repr
 
 /-! ### software -/
@@ -335,6 +339,19 @@ def Folder.corrupt (F : Folder) : Folder :=
 /-- `FileSystem.delete_folder` on a live folder: `folder.delete()` + `remove_all_files()`. -/
 def Folder.delete (F : Folder) : Folder :=
   { F with deleted := true, files := F.files.map (File.deleteAt (F.delCtr + 1)), delCtr := F.delCtr + 1 }
+/-- …appended to `deleted_folders` at place `s` -/
+def Folder.deleteAt (s : Nat) (F : Folder) : Folder := { F.delete with delSeq := s }
+
+/-- `get_folder(name, include_deleted=True)`: a LIVE folder of that name first, else the first deleted one in deletion order -/
+def hasLiveFolder (name : String) (fo : List Folder) : Bool := fo.any (fun G => G.name = name && !G.deleted)
+def firstDeletedFolder (fo : List Folder) (G : Folder) : Bool :=
+  fo.all (fun H => !(H.name = G.name && H.deleted) || decide (G.delSeq ≤ H.delSeq))
+
+/-- `FileSystem.restore_folder(name)` as it reaches folder `G`: the live folder of that name if there is one (a deleted namesake is
+not reached), else the first deleted one in deletion order -/
+def Folder.restoreIn (fo : List Folder) (G : Folder) : Folder :=
+  if G.deleted then (if hasLiveFolder G.name fo then G else if firstDeletedFolder fo G then G.restore else G) else G.restore
+
 
 /-- folder-level handler (reached only for live folders). -/
 def Folder.handle (F : Folder) : ItemReq → Folder × Bool
@@ -488,9 +505,10 @@ def Node.apply (n : Node) : Op → Node
   | .file F f r =>
     if n.power = .on then n.mapLiveFolder F (fun G => G.mapLiveFile f (fun x => (x.handle r).1)) else n
   | .fsDeleteFile F f => if n.power = .on then n.mapLiveFolder F (fun G => G.delLive f) else n
-  | .fsDeleteFolder F => if n.power = .on ∧ F ≠ "root" then n.mapLiveFolder F Folder.delete else n
+  | .fsDeleteFolder F =>
+    if n.power = .on ∧ F ≠ "root" then { n.mapLiveFolder F (Folder.deleteAt (n.fdelCtr + 1)) with fdelCtr := n.fdelCtr + 1 } else n
   | .fsRestoreFile F f => if n.power = .on then n.mapLiveFolder F (fun G => G.mapFile f (File.restoreIn G.files)) else n
-  | .fsRestoreFolder F => if n.power = .on then n.mapFolder F Folder.restore else n
+  | .fsRestoreFolder F => if n.power = .on then n.mapFolder F (Folder.restoreIn n.folders) else n
   | .fileSet F f h => n.mapFolder F (fun G => G.mapFile f (fun x => { x with actual := h }))
 
 /-- The `RequestResponse.status` of an operation (`ok` for ticks and Python-API calls). -/
